@@ -5,12 +5,174 @@ package main
 // has content. If the deferring condition can hold on an empty line, a grapheme wider than the
 // line is deferred forever and Scan never terminates (the property exempts such a grapheme from
 // the width bound precisely so that it can be emitted alone).
+//
+// Formulation (independent of how the test is spelt): in the loop that hands the graphemes of the
+// long word to the token one by one (its body appends to s.token and advances the line width by the
+// grapheme's Width), every path through one iteration that does NOT append the grapheme to the token
+// ("deferring path") must be infeasible on an empty line, i.e. under  w == 0  and  s.width >= 1
+// (Scan returns early for width 0) some branch decision taken on that path is contradicted.
+// The decisions are evaluated as formulas (c15Formula/c15Eval), so `C`, `!(!C)`, De Morgan forms,
+// if/else with the branches swapped, early-continue forms and named booleans (propagated by the
+// normaliser) are all the same to the rule.
 
 import (
+	"fmt"
 	"go/ast"
 	"go/token"
 	"go/types"
+	"strings"
 )
+
+type c16gDecision struct {
+	expr ast.Expr
+	pol  bool
+}
+
+type c16gPath struct {
+	conds    []c16gDecision
+	appended bool
+	done     bool
+	odd      string
+}
+
+func (p c16gPath) clone() c16gPath {
+	q := p
+	q.conds = append([]c16gDecision{}, p.conds...)
+	return q
+}
+
+// c16gIsTokenAppend:  X.token = append(X.token, ...)
+func c16gIsTokenAppend(n ast.Node) bool {
+	as, ok := n.(*ast.AssignStmt)
+	if !ok || len(as.Lhs) != 1 || len(as.Rhs) != 1 {
+		return false
+	}
+	sel, ok := unparen(as.Lhs[0]).(*ast.SelectorExpr)
+	if !ok || sel.Sel.Name != "token" {
+		return false
+	}
+	call, ok := unparen(as.Rhs[0]).(*ast.CallExpr)
+	if !ok || len(call.Args) < 2 {
+		return false
+	}
+	id, ok := call.Fun.(*ast.Ident)
+	return ok && id.Name == "append"
+}
+
+// c16gWidthAdvance:  acc += <…Width…>  /  acc = acc + <…Width…>  on a plain local; returns acc.
+func c16gWidthAdvance(info *types.Info, n ast.Node) types.Object {
+	as, ok := n.(*ast.AssignStmt)
+	if !ok || len(as.Lhs) != 1 || len(as.Rhs) != 1 {
+		return nil
+	}
+	id, ok := unparen(as.Lhs[0]).(*ast.Ident)
+	if !ok {
+		return nil
+	}
+	o := info.ObjectOf(id)
+	if o == nil {
+		return nil
+	}
+	if as.Tok != token.ADD_ASSIGN {
+		if _, isAdv := c16Advance(info, as, o); !isAdv || as.Tok != token.ASSIGN {
+			return nil
+		}
+	}
+	if !containsNode(as.Rhs[0], func(m ast.Node) bool {
+		s, ok := m.(*ast.SelectorExpr)
+		return ok && s.Sel.Name == "Width"
+	}) {
+		return nil
+	}
+	return o
+}
+
+// c16gOwn visits the nodes of a loop body that belong to this loop (not to nested loops or closures).
+func c16gOwn(body ast.Node, f func(ast.Node)) {
+	ast.Inspect(body, func(n ast.Node) bool {
+		if n == nil {
+			return false
+		}
+		if n != body {
+			switch n.(type) {
+			case *ast.ForStmt, *ast.RangeStmt, *ast.FuncLit:
+				return false
+			}
+		}
+		f(n)
+		return true
+	})
+}
+
+func c16gHasEvents(n ast.Node) bool {
+	found := false
+	c16gOwn(n, func(m ast.Node) {
+		switch m.(type) {
+		case *ast.BranchStmt, *ast.ReturnStmt:
+			found = true
+		}
+		if c16gIsTokenAppend(m) {
+			found = true
+		}
+	})
+	return found
+}
+
+func c16gExec(list []ast.Stmt, in c16gPath) []c16gPath {
+	paths := []c16gPath{in}
+	for _, st := range list {
+		var next []c16gPath
+		for _, p := range paths {
+			if p.done {
+				next = append(next, p)
+				continue
+			}
+			next = append(next, c16gStep(st, p)...)
+		}
+		paths = next
+	}
+	return paths
+}
+
+func c16gStep(st ast.Stmt, p c16gPath) []c16gPath {
+	switch t := st.(type) {
+	case *ast.BlockStmt:
+		return c16gExec(t.List, p)
+	case *ast.LabeledStmt:
+		return c16gStep(t.Stmt, p)
+	case *ast.BranchStmt, *ast.ReturnStmt:
+		p.done = true
+		return []c16gPath{p}
+	case *ast.IfStmt:
+		if !c16gHasEvents(t) {
+			return []c16gPath{p}
+		}
+		a := p.clone()
+		a.conds = append(a.conds, c16gDecision{t.Cond, true})
+		outs := c16gExec(t.Body.List, a)
+		b := p.clone()
+		b.conds = append(b.conds, c16gDecision{t.Cond, false})
+		if t.Else != nil {
+			outs = append(outs, c16gStep(t.Else, b)...)
+		} else {
+			outs = append(outs, b)
+		}
+		return outs
+	case *ast.ForStmt, *ast.RangeStmt:
+		return []c16gPath{p} // nested loops only move the deferred graphemes
+	case *ast.AssignStmt:
+		if c16gIsTokenAppend(t) {
+			p.appended = true
+		}
+		return []c16gPath{p}
+	case *ast.SwitchStmt, *ast.TypeSwitchStmt, *ast.SelectStmt:
+		if c16gHasEvents(t) {
+			p.odd = fmt.Sprintf("%T", st)
+		}
+		return []c16gPath{p}
+	}
+	return []c16gPath{p}
+}
 
 func c16Progress(c *Ctx) {
 	for _, name := range []string{"vxfw/text.(*SoftwrapScanner).Scan", "vxfw/richtext.(*SoftwrapScanner).Scan"} {
@@ -20,78 +182,87 @@ func c16Progress(c *Ctx) {
 			continue
 		}
 		info := fi.Pkg.TypesInfo
+		var recv types.Object
+		if fd := fi.Decl; fd.Recv != nil && len(fd.Recv.List) == 1 && len(fd.Recv.List[0].Names) == 1 {
+			recv = info.Defs[fd.Recv.List[0].Names[0]]
+		}
 		found := 0
 		ast.Inspect(fi.Decl.Body, func(n ast.Node) bool {
-			rs, ok := n.(*ast.RangeStmt)
-			if !ok {
+			var body *ast.BlockStmt
+			switch t := n.(type) {
+			case *ast.RangeStmt:
+				body = t.Body
+			case *ast.ForStmt:
+				body = t.Body
+			}
+			if body == nil {
 				return true
 			}
-			// the split loop: its body adds to the width accumulator `w += …Width`
+			// the split loop: one iteration adds to the token and advances a width accumulator by a Width
 			var acc types.Object
-			for _, st := range rs.Body.List {
-				if as, ok := st.(*ast.AssignStmt); ok && as.Tok == token.ADD_ASSIGN && len(as.Lhs) == 1 {
-					if id, ok := as.Lhs[0].(*ast.Ident); ok && containsNode(as.Rhs[0], func(m ast.Node) bool {
-						s, ok := m.(*ast.SelectorExpr)
-						return ok && s.Sel.Name == "Width"
-					}) {
-						acc = info.ObjectOf(id)
-					}
+			appends := false
+			c16gOwn(body, func(m ast.Node) {
+				if o := c16gWidthAdvance(info, m); o != nil {
+					acc = o
 				}
-			}
-			if acc == nil {
+				if c16gIsTokenAppend(m) {
+					appends = true
+				}
+			})
+			if acc == nil || !appends {
 				return true
 			}
-			for _, st := range rs.Body.List {
-				ifs, ok := st.(*ast.IfStmt)
-				if !ok {
-					continue
-				}
-				defers := false
-				for _, b := range ifs.Body.List {
-					if br, ok := b.(*ast.BranchStmt); ok && (br.Tok == token.BREAK || br.Tok == token.CONTINUE) {
-						defers = true
-					}
-				}
-				if !defers {
-					continue
-				}
-				found++
-				accT := termOf(info, &ast.Ident{Name: acc.Name()})
-				accT = Term{ID: ptrID(acc), Disp: acc.Name()}
-				okAll := true
-				bad := ""
-				for _, d := range splitOr(ifs.Cond) {
-					okD := false
-					for _, cj := range splitAnd(d) {
-						for _, a := range exprAtoms(info, cj, true) {
-							if a.Kind != "lin" {
-								continue
-							}
-							// w >= 1 : 0 - w <= -1
-							if a.A.ID == "" && a.A.Disp == "" && a.B.ID == accT.ID && a.K <= -1 {
-								okD = true
-							}
-							// w >= <line width field> : width - w <= 0 (the scanner returns early for width 0)
-							if a.B.ID == accT.ID && a.K <= 0 && a.A.Disp != "" && isWidthField(a.A.Disp) {
-								okD = true
-							}
-						}
-						if be, ok := unparen(cj).(*ast.BinaryExpr); ok && be.Op == token.NEQ {
-							if id, ok := unparen(be.X).(*ast.Ident); ok && info.ObjectOf(id) == acc {
-								if v, isC := constInt(info, be.Y); isC && v == 0 {
-									okD = true
-								}
-							}
-						}
-					}
-					if !okD {
-						okAll = false
-						bad = types.ExprString(d)
-					}
-				}
-				c.check(okAll, "C16.g", name+"/a grapheme is deferred only from a line that already has content", ifs.Pos(),
-					"every alternative of the deferring condition implies the line is non-empty", "the deferring condition `"+bad+"` can hold on an empty line: a grapheme wider than the line is never emitted and Scan does not terminate")
+			paths := c16gExec(body.List, c16gPath{})
+			// the empty line: acc == 0, and the width is at least 1
+			accL := c15TermLin(ptrID(acc), acc.Name(), c15IsUnsigned(acc.Type()))
+			assume := []c15Lin{accL, accL.neg()}
+			if recv != nil {
+				assume = append(assume, c15TermLin(fmt.Sprintf("%p", recv)+".width", recv.Name()+".width", true).neg().plus(1))
 			}
+			deferring, okAll := 0, true
+			bad, odd := "", ""
+			for _, p := range paths {
+				if p.odd != "" {
+					odd = p.odd
+				}
+				if p.appended {
+					continue
+				}
+				deferring++
+				refuted := false
+				var desc []string
+				for _, d := range p.conds {
+					v := c15Eval(c15Formula(info, d.expr), assume, nil)
+					if (d.pol && v == -1) || (!d.pol && v == 1) {
+						refuted = true
+					}
+					x := types.ExprString(d.expr)
+					if !d.pol {
+						x = "!(" + x + ")"
+					}
+					desc = append(desc, x)
+				}
+				if !refuted {
+					okAll = false
+					if bad == "" {
+						bad = strings.Join(desc, " && ")
+						if bad == "" {
+							bad = "unconditional"
+						}
+					}
+				}
+			}
+			if odd != "" {
+				found++
+				c.undecided("C16.g", name+"/a grapheme is deferred only from a line that already has content", n.Pos(), "the grapheme loop branches with a %s the rule does not follow", odd)
+				return true
+			}
+			if deferring == 0 {
+				return true
+			}
+			found++
+			c.check(okAll, "C16.g", name+"/a grapheme is deferred only from a line that already has content", n.Pos(),
+				"every way of not adding the grapheme to the token is excluded when the line is empty ("+acc.Name()+" == 0, width >= 1)", "the deferring condition `"+bad+"` can hold on an empty line: a grapheme wider than the line is never emitted and Scan does not terminate")
 			return true
 		})
 		if found == 0 {
@@ -108,24 +279,4 @@ func termOfObj(o types.Object) string {
 
 func objID(o types.Object) string {
 	return sprintfPtr(o)
-}
-
-func isWidthField(disp string) bool {
-	return len(disp) >= 6 && disp[len(disp)-6:] == ".width"
-}
-
-func splitOr(e ast.Expr) []ast.Expr {
-	e = unparen(e)
-	if b, ok := e.(*ast.BinaryExpr); ok && b.Op == token.LOR {
-		return append(splitOr(b.X), splitOr(b.Y)...)
-	}
-	return []ast.Expr{e}
-}
-
-func splitAnd(e ast.Expr) []ast.Expr {
-	e = unparen(e)
-	if b, ok := e.(*ast.BinaryExpr); ok && b.Op == token.LAND {
-		return append(splitAnd(b.X), splitAnd(b.Y)...)
-	}
-	return []ast.Expr{e}
 }
